@@ -15,9 +15,8 @@ PRIMS = ('transfer', '_transfer', '_transfer_slice')
 
 
 def run(ctx):
-    from .configtime import no_lazily_filled_attributes as _no_lazy, no_state_outside_objects as _no_state2
-    _no_lazy(ctx, 'C01.R3', ('Slicer', 'PlateSlicer', 'Plate'))
-    _no_state2(ctx, 'C01.R3', classes=('Slicer', 'PlateSlicer', 'Plate'))
+    from .configtime import derived_values as _derived
+    _derived(ctx, 'C01.R3', ('Slicer', 'PlateSlicer', 'Plate'))
     symmetric_update(ctx)
     # the per-substance update finds the destination's entry through the key laws of Substance
     from .identity import identity_discipline
